@@ -27,6 +27,7 @@ import (
 	cptv "github.com/TheCacophonyProject/go-cptv"
 	"github.com/godbus/dbus"
 	yamlv1 "gopkg.in/yaml.v1"
+	"github.com/TheCacophonyProject/thermal-recorder/motion"
 )
 
 // ---------------------------------------------------------------- fake system bus
@@ -469,13 +470,19 @@ func TestVerifE2E(t *testing.T) {
 						svc := &service{}
 						// observation for the freshness clause: how many frames had completed on the processor
 						// that is current when the request starts, and whether it is still current afterwards
-						mu.Lock()
-						p0 := processor
+						// (only for TakeSnapshot: taking the daemon's mutex around other requests would order them with
+						// the frame loop and hide a missing lock from the race detector)
+						observe := rq.Member == "TakeSnapshot"
+						var p0 *motion.MotionProcessor
 						var cnt uint32
-						if p0 != nil {
-							cnt = p0.CurrentFrame
+						if observe {
+							mu.Lock()
+							p0 = processor
+							if p0 != nil {
+								cnt = p0.CurrentFrame
+							}
+							mu.Unlock()
 						}
-						mu.Unlock()
 						ev := map[string]interface{}{"ev": "e2e-dbus", "conn": ci, "member": rq.Member, "cnt": int(cnt)}
 
 						switch rq.Member {
@@ -521,9 +528,13 @@ func TestVerifE2E(t *testing.T) {
 								ev["reply"] = map[string]interface{}{"map": mm}
 							}
 						}
-						mu.Lock()
-						ev["same"] = processor == p0
-						mu.Unlock()
+						if observe {
+							mu.Lock()
+							ev["same"] = processor == p0
+							mu.Unlock()
+						} else {
+							ev["same"] = true
+						}
 						connOfMu.Lock()
 						if c, ok := connOf[p0]; ok {
 							ev["pconn"] = c
